@@ -112,7 +112,7 @@ def run_extras(pid, tier):
         for f in sc['shared_mutable_state'] + sc['unexpected_lazy_statics']:
             rep['violations'].append(dict(obligation='C18.no_shared_mutable_state', kind='structural-scan', function=None, message='shared mutable state: ' + f,
                                           clause=None, repo_site=None, properties=['C18'], verifier_output='tools/scan_state.py: ' + f))
-    if pid in ('C12', 'C15', 'C05', 'C16'):
+    if pid in ('C12', 'C15', 'C05', 'C16', 'C01', 'C02', 'C13'):
         # standing bounded checks of the compiled get_content_type_and_charset, trim_ascii, IntoRequestBytes impls, VecSignedHeaderRequirements::add_*/remove_*: these are
         # under contract by now, but through outlined iterator idioms / declared desugarings; the compiled originals are compared with the same specs, bounded
         st = native_run(['standing', pid], timeout=120)
@@ -135,7 +135,8 @@ def run_extras(pid, tier):
             if h['status'] == 'FAILED':
                 rep['violations'].append(dict(obligation='kani.' + h['name'], kind='kani-harness-failed', function=h.get('target'), message=h.get('detail', '')[:400],
                                               clause=None, repo_site=None, properties=[pid], verifier_output=h.get('detail', '')))
-        rep['native'] = native_run(['crosscheck', pid], timeout=600)
+        os.environ['VERIF_DIFF_BUDGET'] = '2000000'   # thorough: two million differential requests per property (about a minute)
+        rep['native'] = native_run(['crosscheck', pid], timeout=1200)
     return rep
 
 
